@@ -108,7 +108,9 @@ where
         max_poly_degree: usize,
     ) -> Result<Self, VerifierError> {
         // infer evaluation domain info
-        let domain_size = max_poly_degree.next_power_of_two() * options.blowup_factor();
+        // a polynomial of degree `max_poly_degree` has `max_poly_degree + 1` coefficients; this is the number
+        // which gets padded to the next power of two (the two differ when the degree itself is a power of two)
+        let domain_size = (max_poly_degree + 1).next_power_of_two() * options.blowup_factor();
         let domain_generator = E::BaseField::get_root_of_unity(domain_size.ilog2());
 
         let num_partitions = channel.read_fri_num_partitions();
